@@ -36,6 +36,7 @@ class MemTransport(asyncio.Transport):
         self.node_ctx = None          # context of the node (for deliveries to it)
         self.eof_received = False
         self.bytes_in = 0
+        self.node = None
 
     # -- asyncio.Transport API ---------------------------------------------------
     def set_protocol(self, p):
@@ -68,7 +69,24 @@ class MemTransport(asyncio.Transport):
                 self.closing = True
                 self.loop.call_soon(self.proto.connection_lost, BrokenPipeError(32, "Broken pipe"))
             return
+        act = None
+        if self.side == "node":
+            act = self.run.fault_state.get("on_node_write", {}).pop(self.sid, None)
+        if act == "torn":
+            data = bytes(data)
+            self._enqueue(("data", data[: max(1, len(data) // 2)]))
+            self.run.rec("fault", "torn_reply", self.sid, None, None, self._others_in_flight())
+            self.run.fault_state["fired"] = self.run.fault_state.get("fired", 0) + 1
+            self.node.kill()
+            return
         self._enqueue(("data", bytes(data)))
+        if act == "kill":
+            self.run.rec("fault", "kill_after_reply", self.sid, None, None, self._others_in_flight())
+            self.run.fault_state["fired"] = self.run.fault_state.get("fired", 0) + 1
+            self.node.kill()
+
+    def _others_in_flight(self):
+        return sum(1 for s, v in self.run.in_flight_mosaik.items() if v > 0 and s != self.sid)
 
     def write_eof(self):
         self._enqueue(("eof", None))
@@ -177,6 +195,8 @@ class Node:
         sid_hint = f"node{self.idx}"
         (ra, wa, ta), (rb, wb, tb) = make_pair(self.loop, self.run, sid_hint, self.ctx)
         self.t_node, self.t_mosaik = tb, ta
+        tb.node = self
+        ta.node = self
         self.task = self.loop.create_task(self._main(rb, wb), context=self.ctx)
         self.task.add_done_callback(self._done)
         return ra, wa
